@@ -282,4 +282,893 @@ theorem docAnn_existing_aux (ts : TS.TypeSystem) (ti cas : Nat) (c : Cas) (hp : 
   unfold getDocumentAnnotation
   simp only [bind, Except.bind, pure, Except.pure, hsel]
 
+/-! ### The document annotation -/
+
+theorem construct_ok {t : TS.TypeRec} {ti : Nat} {x : Option Int} {kw : List (String × Val)} {o : Obj}
+    (h : construct t ti x kw = .ok o) : o.ty = t.name ∧ o.xid = x := by
+  unfold construct at h
+  simp only at h
+  split at h
+  · cases h
+  · cases h; exact ⟨rfl, rfl⟩
+
+theorem docAnn_cases {ts : TS.TypeSystem} {ti cas : Nat} {c c' : Cas} {hp hp' : Heap} {h : Handle} {a : Nat}
+    (hd : getDocumentAnnotation ts ti cas c hp h = .ok (c', hp', a)) :
+    (∃ e rest, select ts c h TS.DOCUMENT_ANNOTATION = .ok (e :: rest) ∧ c' = c ∧ hp' = hp ∧ a = e.oid) ∨
+    (select ts c h TS.DOCUMENT_ANNOTATION = .ok [] ∧ ∃ t o, TS.getType ts TS.DOCUMENT_ANNOTATION = .ok t ∧
+      construct t ti none [] = .ok o ∧ add ts cas c (hp ++ [o]) h hp.length true = .ok (c', hp') ∧
+      a = hp.length) := by
+  unfold getDocumentAnnotation at hd
+  simp only [bind, Except.bind, pure, Except.pure] at hd
+  cases hsel : select ts c h TS.DOCUMENT_ANNOTATION with
+  | error e => simp only [hsel] at hd; cases hd
+  | ok sel =>
+    simp only [hsel] at hd
+    cases sel with
+    | cons e rest =>
+      simp only at hd
+      cases hd
+      exact Or.inl ⟨e, rest, rfl, rfl, rfl, rfl⟩
+    | nil =>
+      simp only at hd
+      cases ht : TS.getType ts TS.DOCUMENT_ANNOTATION with
+      | error e => simp only [ht] at hd; cases hd
+      | ok t =>
+        simp only [ht] at hd
+        cases hc : construct t ti none [] with
+        | error e => simp only [hc] at hd; cases hd
+        | ok o =>
+          simp only [hc] at hd
+          cases hadd : add ts cas c (hp ++ [o]) h hp.length true with
+          | error e => simp only [hadd] at hd; cases hd
+          | ok r =>
+            obtain ⟨c2, hp2⟩ := r
+            simp only [hadd] at hd
+            cases hd
+            exact Or.inr ⟨rfl, t, o, rfl, hc, hadd, rfl⟩
+
+theorem select_cases {ts : TS.TypeSystem} {c : Cas} {h : Handle} {n : String} {l : List Index.Entry}
+    (hs : select ts c h n = .ok l) :
+    ∃ t v, TS.getType ts n = .ok t ∧ getViewRec c h.view = some v ∧
+      l = Index.selectNames v.idx (TS.descendantsOf ts t.name) := by
+  unfold select at hs
+  simp only [bind, Except.bind, pure, Except.pure] at hs
+  cases ht : TS.getType ts n with
+  | error e => simp only [ht] at hs; cases hs
+  | ok t =>
+    simp only [ht] at hs
+    cases hv : cur c h with
+    | error e => simp only [hv] at hs; cases hs
+    | ok v =>
+      simp only [hv] at hs
+      cases hs
+      exact ⟨t, v, rfl, cur_ok hv, rfl⟩
+
+theorem select_of {ts : TS.TypeSystem} {c : Cas} {h : Handle} {n : String} {t : TS.TypeRec} {v : View}
+    (ht : TS.getType ts n = .ok t) (hv : getViewRec c h.view = some v) :
+    select ts c h n = .ok (Index.selectNames v.idx (TS.descendantsOf ts t.name)) := by
+  unfold select
+  simp only [bind, Except.bind, pure, Except.pure, ht, cur_of_get hv]
+
+theorem flatMap_head_of_single {names : List String} {f : String → List Index.Entry} {ty : String}
+    {e : Index.Entry} (hf : ∀ n ∈ names, f n = if n = ty then [e] else []) (hm : ty ∈ names) :
+    ∃ r, names.flatMap f = e :: r := by
+  induction names with
+  | nil => cases hm
+  | cons n rest ih =>
+    rw [List.flatMap_cons, hf n List.mem_cons_self]
+    by_cases hn : n = ty
+    · simp only [hn, if_true]
+      exact ⟨_, rfl⟩
+    · simp only [hn, if_false, List.nil_append]
+      have hm' : ty ∈ rest := by
+        rcases List.mem_cons.mp hm with e | e
+        · exact absurd e.symm hn
+        · exact e
+      exact ih (fun m hm2 => hf m (List.mem_cons_of_mem _ hm2)) hm'
+
+theorem self_mem_descendantsOf {ts : TS.TypeSystem} (hcs : TS.Consistent ts) {n : String} {t : TS.TypeRec}
+    (ht : TS.getType ts n = .ok t) : t.name ∈ TS.descendantsOf ts t.name := by
+  have hm : t ∈ ts.types := TS.getType_mem ht
+  have hx : TS.hasExact ts t.name = true :=
+    (TS.hasExact_iff_mem ts t.name).mpr (List.mem_map.mpr ⟨t, hm, rfl⟩)
+  exact (TS.descendants_eq_closure_aux ts hcs t.name t.name hx).mpr (TS.Anc.refl _ hx)
+
+theorem docAnn_creates_once_aux (ts : TS.TypeSystem) (hcs : TS.Consistent ts) (ti cas : Nat) (c c' : Cas)
+    (hp hp' : Heap) (h : Handle) (a : Nat)
+    (hsel : select ts c h TS.DOCUMENT_ANNOTATION = .ok [])
+    (hd : getDocumentAnnotation ts ti cas c hp h = .ok (c', hp', a)) :
+    a = hp.length ∧ hp'.length = hp.length + 1 ∧
+    getDocumentAnnotation ts ti cas c' hp' h = .ok (c', hp', a) := by
+  rcases docAnn_cases hd with ⟨e, rest, hs, _⟩ | ⟨_, t, o, ht, hc, hadd, ha⟩
+  · rw [hsel] at hs; cases hs
+  obtain ⟨t0, v0, ht0, hv0, hnil⟩ := select_cases hsel
+  rw [ht] at ht0
+  cases ht0
+  obtain ⟨o1, v, x, c1, e, ho1, _, hv, hx, he, rfl, rfl⟩ := add_cases hadd
+  rw [hv0] at hv
+  cases hv
+  have ho : o1 = o := by
+    have : (hp ++ [o])[hp.length]? = some o := by simp
+    rw [this] at ho1
+    cases ho1; rfl
+  subst ho
+  have hty : o1.ty = t.name := (construct_ok hc).1
+  subst ha
+  have hempty : ∀ n ∈ TS.descendantsOf ts t.name, Index.get v0.idx n = [] := by
+    intro n hn
+    unfold Index.selectNames at hnil
+    exact List.flatMap_eq_nil_iff.mp hnil.symm n hn
+  have hself := self_mem_descendantsOf hcs ht
+  have hget : ∀ n ∈ TS.descendantsOf ts t.name,
+      Index.get (Index.add v0.idx o1.ty e) n = if n = t.name then [e] else [] := by
+    intro n hn
+    unfold Index.add
+    rw [get_alistSet, hty, hempty _ hself, hempty n hn]
+    rfl
+  obtain ⟨r, hr⟩ := flatMap_head_of_single hget hself
+  refine ⟨rfl, ?_, ?_⟩
+  · rw [List.length_set, List.length_append]; rfl
+  · have hs2 : select ts (setViewRec c1 h.view { v0 with idx := Index.add v0.idx o1.ty e }) h
+        TS.DOCUMENT_ANNOTATION = .ok (e :: r) := by
+      rw [select_of ht (getViewRec_set_same _ _ _)]
+      unfold Index.selectNames
+      simp only
+      rw [hr]
+    rw [docAnn_existing_aux ts ti cas _ _ h e r hs2, entryOf_oid he]
+
+/-! ### Ids: an index-based form of `Bounded ∧ UniqueIds` -/
+
+theorem mem_fsIds {hp : Heap} {x : Int} : x ∈ fsIds hp ↔ ∃ (i : Nat) (o : Obj), hp[i]? = some o ∧ o.xid = some x := by
+  unfold fsIds
+  rw [List.mem_filterMap]
+  constructor
+  · rintro ⟨o, hm, hx⟩
+    obtain ⟨i, hi⟩ := List.mem_iff_getElem?.mp hm
+    exact ⟨i, o, hi, hx⟩
+  · rintro ⟨i, o, hi, hx⟩
+    exact ⟨o, List.mem_of_getElem? hi, hx⟩
+
+/-- no two heap objects share an id -/
+def FsUniq (hp : Heap) : Prop :=
+  ∀ (i j : Nat) (oi oj : Obj) (x : Int), i ≠ j → hp[i]? = some oi → hp[j]? = some oj → oi.xid = some x → oj.xid ≠ some x
+
+theorem fsIds_nodup_iff (hp : Heap) : (fsIds hp).Nodup ↔ FsUniq hp := by
+  unfold fsIds List.Nodup FsUniq
+  rw [List.pairwise_filterMap, List.pairwise_iff_getElem]
+  constructor
+  · intro h i j oi oj x hij hi hj hxi hxj
+    obtain ⟨hi', rfl⟩ := List.getElem?_eq_some_iff.mp hi
+    obtain ⟨hj', rfl⟩ := List.getElem?_eq_some_iff.mp hj
+    rcases Nat.lt_or_gt_of_ne hij with hlt | hlt
+    · exact h i j hi' hj' hlt x hxi x hxj rfl
+    · exact h j i hj' hi' hlt x hxj x hxi rfl
+  · intro h i j hi hj hlt b hb b' hb' e
+    subst e
+    exact h i j _ _ b (Nat.ne_of_lt hlt) (List.getElem?_eq_getElem hi) (List.getElem?_eq_getElem hj) hb hb'
+
+/-- sofa ids `S`, heap `hp` and generator value `nx` fit together -/
+def IdsOk (S : List Int) (hp : Heap) (nx : Int) : Prop :=
+  S.Nodup ∧ (∀ x ∈ S, x < nx) ∧
+  (∀ (i : Nat) (o : Obj) (x : Int), hp[i]? = some o → o.xid = some x → x < nx ∧ x ∉ S) ∧
+  FsUniq hp
+
+def NumsOk (N : List Int) (nn : Int) : Prop := N.Nodup ∧ ∀ n ∈ N, n < nn
+
+theorem good_iff (s : CState) : Bounded s ∧ UniqueIds s ↔
+    IdsOk (sofaIds s.cas) s.heap s.cas.nextXid ∧ NumsOk (sofaNums s.cas) s.cas.nextSofaNum := by
+  unfold Bounded UniqueIds IdsOk NumsOk
+  rw [List.nodup_append, fsIds_nodup_iff]
+  constructor
+  · rintro ⟨⟨b1, b2, b3⟩, ⟨n1, n2, n3⟩, hn⟩
+    refine ⟨⟨n1, b1, ?_, n2⟩, hn, b2⟩
+    intro i o x hi hx
+    have hm : x ∈ fsIds s.heap := mem_fsIds.mpr ⟨i, o, hi, hx⟩
+    exact ⟨b3 x hm, fun hs => n3 x hs x hm rfl⟩
+  · rintro ⟨⟨n1, b1, h3, n2⟩, hn, b2⟩
+    refine ⟨⟨b1, b2, ?_⟩, ⟨n1, n2, ?_⟩, hn⟩
+    · intro x hm
+      obtain ⟨i, o, hi, hx⟩ := mem_fsIds.mp hm
+      exact (h3 i o x hi hx).1
+    · intro a ha b hb e
+      subst e
+      obtain ⟨i, o, hi, hx⟩ := mem_fsIds.mp hb
+      exact (h3 i o a hi hx).2 ha
+
+/-- a heap all of whose ids already occurred at the same address -/
+theorem IdsOk.of_xid_sub {S : List Int} {hp hp' : Heap} {nx : Int} (h : IdsOk S hp nx)
+    (hsub : ∀ (i : Nat) (o' : Obj) (x : Int), hp'[i]? = some o' → o'.xid = some x →
+      ∃ o : Obj, hp[i]? = some o ∧ o.xid = some x) :
+    IdsOk S hp' nx := by
+  obtain ⟨h1, h2, h3, h4⟩ := h
+  refine ⟨h1, h2, ?_, ?_⟩
+  · intro i o' x hi hx
+    obtain ⟨o, hi0, hx0⟩ := hsub i o' x hi hx
+    exact h3 i o x hi0 hx0
+  · intro i j oi oj x hij hi hj hxi hxj
+    obtain ⟨oi0, hi0, hxi0⟩ := hsub i oi x hi hxi
+    obtain ⟨oj0, hj0, hxj0⟩ := hsub j oj x hj hxj
+    exact h4 i j oi0 oj0 x hij hi0 hj0 hxi0 hxj0
+
+theorem getElem?_append_single {α} {l : List α} {a b : α} {i : Nat} (h : (l ++ [a])[i]? = some b) :
+    l[i]? = some b ∨ (i = l.length ∧ b = a) := by
+  rw [List.getElem?_append] at h
+  split at h
+  · exact Or.inl h
+  · rename_i hlt
+    right
+    have hi : i - l.length = 0 := by
+      cases hk : i - l.length with
+      | zero => rfl
+      | succ k => rw [hk] at h; simp at h
+    rw [hi] at h
+    simp only [List.getElem?_cons_zero, Option.some.injEq] at h
+    exact ⟨by omega, h.symm⟩
+
+theorem IdsOk.append_none {S : List Int} {hp : Heap} {nx : Int} (h : IdsOk S hp nx) {o : Obj}
+    (ho : o.xid = none) : IdsOk S (hp ++ [o]) nx := by
+  apply h.of_xid_sub
+  intro i o' x hi hx
+  rcases getElem?_append_single hi with h1 | ⟨_, rfl⟩
+  · exact ⟨o', h1, hx⟩
+  · rw [ho] at hx; cases hx
+
+theorem getElem?_set_cases {α} {l : List α} {a : Nat} {v b : α} {i : Nat} (h : (l.set a v)[i]? = some b) :
+    (i = a ∧ b = v) ∨ (i ≠ a ∧ l[i]? = some b) := by
+  rw [List.getElem?_set] at h
+  split at h
+  · rename_i e
+    split at h
+    · cases h; exact Or.inl ⟨e.symm, rfl⟩
+    · cases h
+  · rename_i e
+    exact Or.inr ⟨fun e' => e e'.symm, h⟩
+
+theorem IdsOk.set_keep {S : List Int} {hp : Heap} {nx : Int} (h : IdsOk S hp nx) {a : Nat} {o o' : Obj}
+    (hget : hp[a]? = some o) (hx : o'.xid = o.xid) : IdsOk S (hp.set a o') nx := by
+  apply h.of_xid_sub
+  intro i o2 x hi hx2
+  rcases getElem?_set_cases hi with ⟨rfl, rfl⟩ | ⟨_, h1⟩
+  · exact ⟨o, hget, by rw [← hx]; exact hx2⟩
+  · exact ⟨o2, h1, hx2⟩
+
+theorem IdsOk.set_fresh {S : List Int} {hp : Heap} {nx : Int} (h : IdsOk S hp nx) {a : Nat} {o' : Obj}
+    (hx : o'.xid = some nx) : IdsOk S (hp.set a o') (nx + 1) := by
+  obtain ⟨h1, h2, h3, h4⟩ := h
+  have hfresh : ∀ (i : Nat) (o : Obj), hp[i]? = some o → o.xid ≠ some nx := by
+    intro i o hi hxo
+    have := (h3 i o nx hi hxo).1
+    omega
+  refine ⟨h1, ?_, ?_, ?_⟩
+  · intro x hm; have := h2 x hm; omega
+  · intro i o2 x hi hx2
+    rcases getElem?_set_cases hi with ⟨rfl, rfl⟩ | ⟨_, hi0⟩
+    · rw [hx] at hx2
+      cases hx2
+      exact ⟨by omega, fun hm => by have := h2 _ hm; omega⟩
+    · have := h3 i o2 x hi0 hx2
+      exact ⟨by omega, this.2⟩
+  · intro i j oi oj x hij hi hj hxi hxj
+    rcases getElem?_set_cases hi with ⟨rfl, rfl⟩ | ⟨hia, hi0⟩
+    · rcases getElem?_set_cases hj with ⟨rfl, rfl⟩ | ⟨_, hj0⟩
+      · exact hij rfl
+      · rw [hx] at hxi; cases hxi
+        exact hfresh j oj hj0 hxj
+    · rcases getElem?_set_cases hj with ⟨rfl, rfl⟩ | ⟨_, hj0⟩
+      · rw [hx] at hxj; cases hxj
+        exact hfresh i oi hi0 hxi
+      · exact h4 i j oi oj x hij hi0 hj0 hxi hxj
+
+theorem IdsOk.new_sofa {S : List Int} {hp : Heap} {nx : Int} (h : IdsOk S hp nx) :
+    IdsOk (S ++ [nx]) hp (nx + 1) := by
+  obtain ⟨h1, h2, h3, h4⟩ := h
+  refine ⟨?_, ?_, ?_, h4⟩
+  · rw [List.nodup_append]
+    refine ⟨h1, List.pairwise_singleton _ _, ?_⟩
+    intro a ha b hb e
+    simp only [List.mem_singleton] at hb
+    have := h2 a ha
+    omega
+  · intro x hm
+    rcases List.mem_append.mp hm with hm | hm
+    · have := h2 x hm; omega
+    · simp only [List.mem_singleton] at hm; omega
+  · intro i o x hi hx
+    have := h3 i o x hi hx
+    refine ⟨by omega, fun hm => ?_⟩
+    rcases List.mem_append.mp hm with hm | hm
+    · exact this.2 hm
+    · simp only [List.mem_singleton] at hm; omega
+
+theorem NumsOk.new {N : List Int} {nn : Int} (h : NumsOk N nn) : NumsOk (N ++ [nn]) (nn + 1) := by
+  obtain ⟨h1, h2⟩ := h
+  refine ⟨?_, ?_⟩
+  · rw [List.nodup_append]
+    refine ⟨h1, List.pairwise_singleton _ _, ?_⟩
+    intro a ha b hb e
+    simp only [List.mem_singleton] at hb
+    have := h2 a ha
+    omega
+  · intro x hm
+    rcases List.mem_append.mp hm with hm | hm
+    · have := h2 x hm; omega
+    · simp only [List.mem_singleton] at hm; omega
+
+end Cassis.Cas
+
+/-! ### The traversal assigns ids from the generator only
+
+Any relation between heap and generator value that is kept by "give the object at `a`, which has no id,
+the id `nx` and advance the generator" is kept by `findAllFs`. -/
+namespace Cassis.Traverse
+open Cassis.TS
+
+theorem step_pres (P : Heap → Int → Prop)
+    (hset : ∀ hp nx a ob, P hp nx → hp[a]? = some ob → ob.xid = none →
+      P (hp.set a { ob with xid := some nx }) (nx + 1))
+    (K : Consts) (ts : TypeSystem) (o : Opts) (lf : Nat) (s : St) (a : Nat) (rest : List Nat) (s' : St)
+    (hP : P s.heap s.nextXid) (h : step K ts o lf s a rest = .ok s') : P s'.heap s'.nextXid := by
+  unfold step at h
+  simp only [bind, Except.bind, pure, Except.pure, throw, throwThe, MonadExceptOf.throw] at h
+  split at h
+  case h_2 => cases h
+  rename_i ob hob
+  repeat' split at h
+  all_goals first
+    | (cases h; done)
+    | (cases h; exact hP)
+    | (cases h; exact hset _ _ _ _ hP hob (by assumption))
+
+theorem run_pres (P : Heap → Int → Prop)
+    (hset : ∀ hp nx a ob, P hp nx → hp[a]? = some ob → ob.xid = none →
+      P (hp.set a { ob with xid := some nx }) (nx + 1))
+    (K : Consts) (ts : TypeSystem) (o : Opts) (lf : Nat) (f : Nat) (s s' : St)
+    (hP : P s.heap s.nextXid) (h : run K ts o lf f s = .ok s') : P s'.heap s'.nextXid := by
+  induction f generalizing s with
+  | zero =>
+    unfold run at h
+    split at h
+    · cases h; exact hP
+    · cases h
+  | succ f ih =>
+    unfold run at h
+    split at h
+    · cases h; exact hP
+    · rename_i a rest ho
+      cases hs : step K ts o lf s a rest with
+      | error e => rw [hs] at h; cases h
+      | ok s1 =>
+        rw [hs] at h
+        exact ih s1 (step_pres P hset K ts o lf s a rest s1 hP hs) h
+
+theorem findAllFs_pres (P : Heap → Int → Prop)
+    (hset : ∀ hp nx a ob, P hp nx → hp[a]? = some ob → ob.xid = none →
+      P (hp.set a { ob with xid := some nx }) (nx + 1))
+    (K : Consts) (ts : TypeSystem) (o : Opts) (hp : Heap) (nx : Int) (seeds : List Nat) (s' : St)
+    (hP : P hp nx) (h : findAllFs K ts o hp nx seeds = .ok s') : P s'.heap s'.nextXid :=
+  run_pres P hset K ts o _ _ _ s' hP h
+
+end Cassis.Traverse
+
+namespace Cassis.Cas
+
+/-! ### One step of a history -/
+
+theorem isSome_iff_keys (c : Cas) (n : String) :
+    (getViewRec c n).isSome = true ↔ n ∈ c.views.map (·.1) := alistGet?_isSome_iff _ _
+
+theorem viewsOk_iff_sig (s : CState) :
+    ViewsOk s ↔ ((sig s.cas).map (·.1)).Nodup ∧ ∀ q ∈ sig s.cas, q.2.1 = q.1 := by
+  unfold ViewsOk
+  rw [keys_of_sig]
+  constructor
+  · rintro ⟨h1, h2⟩
+    refine ⟨h1, ?_⟩
+    intro q hq
+    obtain ⟨p, hp, rfl⟩ := List.mem_map.mp hq
+    exact h2 p hp
+  · rintro ⟨h1, h2⟩
+    refine ⟨h1, ?_⟩
+    intro p hp
+    exact h2 _ (List.mem_map.mpr ⟨p, hp, rfl⟩)
+
+/-- the invariant carried along histories -/
+def Good (s : CState) : Prop :=
+  IdsOk (sofaIds s.cas) s.heap s.cas.nextXid ∧ NumsOk (sofaNums s.cas) s.cas.nextSofaNum ∧ ViewsOk s
+
+theorem good_iff' (s : CState) : Good s ↔ Bounded s ∧ UniqueIds s ∧ ViewsOk s := by
+  unfold Good
+  constructor
+  · rintro ⟨h1, h2, h3⟩
+    have := (good_iff s).mpr ⟨h1, h2⟩
+    exact ⟨this.1, this.2, h3⟩
+  · rintro ⟨h1, h2, h3⟩
+    have := (good_iff s).mp ⟨h1, h2⟩
+    exact ⟨this.1, this.2, h3⟩
+
+/-- view names only grow; a new handle copies the leniency of an old one and names an existing view -/
+def Ext (s s' : CState) : Prop :=
+  (∀ n, n ∈ s.cas.views.map (·.1) → n ∈ s'.cas.views.map (·.1)) ∧
+  ∀ hd ∈ s'.handles, hd ∈ s.handles ∨
+    ((∃ h0 ∈ s.handles, hd.lenient = h0.lenient) ∧ hd.view ∈ s'.cas.views.map (·.1))
+
+theorem Ext.refl (s : CState) : Ext s s := ⟨fun _ h => h, fun _ h => Or.inl h⟩
+
+theorem Ext.trans {s1 s2 s3 : CState} (h12 : Ext s1 s2) (h23 : Ext s2 s3) (hh : s2.handles = s1.handles) :
+    Ext s1 s3 := by
+  refine ⟨fun n h => h23.1 n (h12.1 n h), ?_⟩
+  intro hd hm
+  rcases h23.2 hd hm with h | ⟨⟨h0, hm0, hl⟩, hv⟩
+  · left; rw [← hh]; exact h
+  · right; exact ⟨⟨h0, by rw [← hh]; exact hm0, hl⟩, hv⟩
+
+theorem good_update {s s' : CState} (hg : Good s) (hsig : sig s'.cas = sig s.cas)
+    (hnum : s'.cas.nextSofaNum = s.cas.nextSofaNum) (hh : s'.handles = s.handles)
+    (hids : IdsOk (sofaIds s.cas) s'.heap s'.cas.nextXid) : Good s' ∧ Ext s s' := by
+  obtain ⟨_, h2, h3⟩ := hg
+  refine ⟨⟨?_, ?_, ?_⟩, ?_, ?_⟩
+  · rw [sofaIds_of_sig, hsig, ← sofaIds_of_sig]; exact hids
+  · rw [sofaNums_of_sig, hsig, ← sofaNums_of_sig, hnum]; exact h2
+  · rw [viewsOk_iff_sig, hsig, ← viewsOk_iff_sig]; exact h3
+  · intro n hn
+    rw [keys_of_sig, hsig, ← keys_of_sig]; exact hn
+  · intro hd hm
+    left; rw [← hh]; exact hm
+
+theorem setView_good {s : CState} (hg : Good s) {n : String} {v v' : View}
+    (hv : getViewRec s.cas n = some v)
+    (h1 : v'.sofa.sofaID = v.sofa.sofaID) (h2 : v'.sofa.xid = v.sofa.xid)
+    (h3 : v'.sofa.sofaNum = v.sofa.sofaNum) :
+    Good { s with cas := setViewRec s.cas n v' } ∧ Ext s { s with cas := setViewRec s.cas n v' } :=
+  good_update hg (sig_setViewRec _ _ v v' hv h1 h2 h3) rfl rfl hg.1
+
+theorem add_good {ts : TS.TypeSystem} {cas : Nat} {s : CState} {h : Handle} {addr : Nat} {keep : Bool}
+    {c' : Cas} {hp' : Heap} (hg : Good s) (hadd : add ts cas s.cas s.heap h addr keep = .ok (c', hp')) :
+    Good { s with cas := c', heap := hp' } ∧ Ext s { s with cas := c', heap := hp' } := by
+  obtain ⟨o, v, x, c1, e, ho, _, hv, hx, he, rfl, rfl⟩ := add_cases hadd
+  rcases hx with ⟨_, hxo, rfl⟩ | ⟨_, rfl, rfl⟩
+  · refine good_update hg (sig_setViewRec _ _ v _ hv rfl rfl rfl) rfl rfl ?_
+    exact hg.1.set_keep ho (by rw [hxo]; rfl)
+  · refine good_update hg (sig_setViewRec _ _ v _ hv rfl rfl rfl) rfl rfl ?_
+    exact hg.1.set_fresh rfl
+
+def newView (c : Cas) (name : String) : View :=
+  { sofa := { sofaID := name, sofaNum := c.nextSofaNum, xid := c.nextXid } }
+
+theorem createView_ok {c c' : Cas} {h h' : Handle} {name : String}
+    (hc : createView c h name = .ok (c', h')) :
+    getViewRec c name = none ∧
+    c' = { views := c.views ++ [(name, newView c name)], nextXid := c.nextXid + 1,
+           nextSofaNum := c.nextSofaNum + 1 } ∧ h' = { h with view := name } := by
+  unfold createView at hc
+  split at hc
+  · cases hc
+  · rename_i hn
+    have hnone : getViewRec c name = none := by
+      cases hg : getViewRec c name with
+      | none => rfl
+      | some v => rw [hg] at hn; exact absurd rfl hn
+    cases hc
+    refine ⟨hnone, ?_, rfl⟩
+    simp only [addView, setViewRec]
+    rw [alistSet_of_none _ _ _ hnone]
+    rfl
+
+theorem getView_ok {c : Cas} {h h' : Handle} {name : String} (hc : getView c h name = .ok h') :
+    (getViewRec c name).isSome = true ∧ h' = { h with view := name } := by
+  unfold getView at hc
+  split at hc
+  · rename_i hn; cases hc; exact ⟨hn, rfl⟩
+  · cases hc
+
+theorem updSofa_good {s : CState} (hg : Good s) {h : Handle} {f : Sofa → Sofa} {c' : Cas}
+    (hf1 : ∀ x, (f x).sofaID = x.sofaID) (hf2 : ∀ x, (f x).xid = x.xid) (hf3 : ∀ x, (f x).sofaNum = x.sofaNum)
+    (hu : updSofa s.cas h f = .ok c') : Good { s with cas := c' } ∧ Ext s { s with cas := c' } := by
+  obtain ⟨v, hv, rfl⟩ := updSofa_ok hu
+  exact setView_good hg hv (hf1 _) (hf2 _) (hf3 _)
+
+theorem step_good (K : TS.Consts) (ts : TS.TypeSystem) (s : CState) (op : COp) (hg : Good s) :
+    Good (cstep K ts s op) ∧ Ext s (cstep K ts s op) := by
+  have hrefl : Good s ∧ Ext s s := ⟨hg, Ext.refl s⟩
+  cases op with
+  | createView h name =>
+    simp only [cstep]
+    cases hh : s.handles[h]? with
+    | none => exact hrefl
+    | some hd =>
+      simp only
+      cases hc : createView s.cas hd name with
+      | error e => exact hrefl
+      | ok r =>
+        obtain ⟨c', h'⟩ := r
+        simp only
+        obtain ⟨hnone, rfl, rfl⟩ := createView_ok hc
+        obtain ⟨g1, g2, g3⟩ := hg
+        have hnk : name ∉ s.cas.views.map (·.1) := by
+          intro hm
+          have := (isSome_iff_keys s.cas name).mpr hm
+          rw [hnone] at this
+          cases this
+        refine ⟨⟨?_, ?_, ?_, ?_⟩, ?_, ?_⟩
+        · show IdsOk (sofaIds _) s.heap (s.cas.nextXid + 1)
+          simp only [sofaIds, List.map_append, List.map_cons, List.map_nil, newView]
+          exact g1.new_sofa
+        · show NumsOk (sofaNums _) (s.cas.nextSofaNum + 1)
+          simp only [sofaNums, List.map_append, List.map_cons, List.map_nil, newView]
+          exact g2.new
+        · show ((s.cas.views ++ [(name, newView s.cas name)]).map (·.1)).Nodup
+          rw [List.map_append, List.nodup_append]
+          refine ⟨g3.1, List.pairwise_singleton _ _, ?_⟩
+          intro a ha b hb e
+          simp only [List.map_cons, List.map_nil, List.mem_singleton] at hb
+          subst e; subst hb
+          exact hnk ha
+        · show ∀ p ∈ s.cas.views ++ [(name, newView s.cas name)], p.2.sofa.sofaID = p.1
+          intro p hp
+          rcases List.mem_append.mp hp with hp | hp
+          · exact g3.2 p hp
+          · simp only [List.mem_singleton] at hp
+            subst hp; rfl
+        · intro n hn
+          show n ∈ (s.cas.views ++ [(name, newView s.cas name)]).map (·.1)
+          rw [List.map_append]
+          exact List.mem_append_left _ hn
+        · intro hd' hm
+          have hm' : hd' ∈ s.handles ++ [{ hd with view := name }] := hm
+          rcases List.mem_append.mp hm' with hm' | hm'
+          · exact Or.inl hm'
+          · simp only [List.mem_singleton] at hm'
+            subst hm'
+            right
+            refine ⟨⟨hd, List.mem_of_getElem? hh, rfl⟩, ?_⟩
+            show name ∈ (s.cas.views ++ [(name, newView s.cas name)]).map (·.1)
+            simp
+  | getView h name =>
+    simp only [cstep]
+    cases hh : s.handles[h]? with
+    | none => exact hrefl
+    | some hd =>
+      simp only
+      cases hc : getView s.cas hd name with
+      | error e => exact hrefl
+      | ok h' =>
+        simp only
+        obtain ⟨hsome, rfl⟩ := getView_ok hc
+        refine ⟨hg, fun n hn => hn, ?_⟩
+        intro hd' hm
+        have hm' : hd' ∈ s.handles ++ [{ hd with view := name }] := hm
+        rcases List.mem_append.mp hm' with hm' | hm'
+        · exact Or.inl hm'
+        · simp only [List.mem_singleton] at hm'
+          subst hm'
+          right
+          exact ⟨⟨hd, List.mem_of_getElem? hh, rfl⟩, (isSome_iff_keys s.cas name).mp hsome⟩
+  | newFs ty feats =>
+    simp only [cstep]
+    cases ht : TS.getType ts ty with
+    | error e => exact hrefl
+    | ok t =>
+      simp only
+      cases hc : construct t 0 none feats with
+      | error e => exact hrefl
+      | ok o =>
+        simp only
+        exact good_update hg rfl rfl rfl (hg.1.append_none (construct_ok hc).2)
+  | add h addr keep =>
+    simp only [cstep]
+    cases hh : s.handles[h]? with
+    | none => exact hrefl
+    | some hd =>
+      simp only
+      cases hc : add ts 0 s.cas s.heap hd addr keep with
+      | error e => exact hrefl
+      | ok r =>
+        obtain ⟨c', hp'⟩ := r
+        exact add_good hg hc
+  | remove h addr =>
+    simp only [cstep]
+    cases hh : s.handles[h]? with
+    | none => exact hrefl
+    | some hd =>
+      simp only
+      cases hc : remove s.cas s.heap hd addr with
+      | error e => exact hrefl
+      | ok c' =>
+        obtain ⟨v, idx', hv, rfl⟩ := remove_ok hc
+        exact setView_good hg hv rfl rfl rfl
+  | setSofaString h t =>
+    simp only [cstep]
+    cases hh : s.handles[h]? with
+    | none => exact hrefl
+    | some hd =>
+      simp only
+      cases hc : setSofaString s.cas hd t with
+      | error e => exact hrefl
+      | ok c' => refine updSofa_good hg ?_ ?_ ?_ hc <;> intro _ <;> rfl
+  | setSofaMime h t =>
+    simp only [cstep]
+    cases hh : s.handles[h]? with
+    | none => exact hrefl
+    | some hd =>
+      simp only
+      cases hc : setSofaMime s.cas hd t with
+      | error e => exact hrefl
+      | ok c' => refine updSofa_good hg ?_ ?_ ?_ hc <;> intro _ <;> rfl
+  | setSofaUri h t =>
+    simp only [cstep]
+    cases hh : s.handles[h]? with
+    | none => exact hrefl
+    | some hd =>
+      simp only
+      cases hc : setSofaUri s.cas hd t with
+      | error e => exact hrefl
+      | ok c' => refine updSofa_good hg ?_ ?_ ?_ hc <;> intro _ <;> rfl
+  | setSofaArray h t =>
+    simp only [cstep]
+    cases hh : s.handles[h]? with
+    | none => exact hrefl
+    | some hd =>
+      simp only
+      cases hc : setSofaArray s.cas hd t with
+      | error e => exact hrefl
+      | ok c' => refine updSofa_good hg ?_ ?_ ?_ hc <;> intro _ <;> rfl
+  | docAnn h =>
+    simp only [cstep]
+    cases hh : s.handles[h]? with
+    | none => exact hrefl
+    | some hd =>
+      simp only
+      cases hc : getDocumentAnnotation ts 0 0 s.cas s.heap hd with
+      | error e => exact hrefl
+      | ok r =>
+        obtain ⟨c', hp', a⟩ := r
+        simp only
+        rcases docAnn_cases hc with ⟨e, rest, _, rfl, rfl, _⟩ | ⟨_, t, o, _, hcon, hadd, _⟩
+        · exact hrefl
+        · obtain ⟨g1, e1⟩ : Good { s with heap := s.heap ++ [o] } ∧ Ext s { s with heap := s.heap ++ [o] } :=
+            good_update hg rfl rfl rfl (hg.1.append_none (construct_ok hcon).2)
+          obtain ⟨g2, e2⟩ := add_good (s := { s with heap := s.heap ++ [o] }) g1 hadd
+          exact ⟨g2, e1.trans e2 rfl⟩
+  | assignIds h =>
+    simp only [cstep]
+    cases hc : Traverse.findAllFs K ts {} s.heap s.cas.nextXid (Traverse.defaultSeeds s.cas) with
+    | error e => exact hrefl
+    | ok st =>
+      simp only
+      refine good_update hg rfl rfl rfl ?_
+      exact Traverse.findAllFs_pres (IdsOk (sofaIds s.cas))
+        (fun hp nx a ob hP _ _ => hP.set_fresh rfl) K ts {} s.heap s.cas.nextXid _ st hg.1 hc
+
+end Cassis.Cas
+
+namespace Cassis.Cas
+
+/-! ### Histories -/
+
+theorem empty_eq : Cas.empty =
+    { views := [(INITIAL_VIEW, { sofa := { sofaID := INITIAL_VIEW, sofaNum := 1, xid := 1 } })],
+      nextXid := 2, nextSofaNum := 2 } := rfl
+
+theorem good_init (lenient : Bool) : Good (init lenient) := by
+  unfold Good init
+  simp only [empty_eq]
+  refine ⟨⟨?_, ?_, ?_, ?_⟩, ⟨?_, ?_⟩, ?_, ?_⟩
+  · simp [sofaIds]
+  · intro x hx
+    simp only [sofaIds, List.map_cons, List.map_nil, List.mem_singleton] at hx
+    omega
+  · intro i o x hi
+    simp at hi
+  · intro i j oi oj x _ hi
+    simp at hi
+  · simp [sofaNums]
+  · intro x hx
+    simp only [sofaNums, List.map_cons, List.map_nil, List.mem_singleton] at hx
+    omega
+  · simp
+  · intro p hp
+    simp only [List.mem_singleton] at hp
+    subst hp; rfl
+
+theorem handlesOk_init (lenient : Bool) : HandlesOk lenient (init lenient) := by
+  intro hd hm
+  simp only [init, List.mem_singleton] at hm
+  subst hm
+  refine ⟨rfl, ?_⟩
+  simp only [init, empty_eq, getViewRec, alistGet?, if_true, Option.isSome_some]
+
+theorem handlesOk_ext {lenient : Bool} {s s' : CState} (hh : HandlesOk lenient s) (he : Ext s s') :
+    HandlesOk lenient s' := by
+  intro hd hm
+  rcases he.2 hd hm with h | ⟨⟨h0, hm0, hl⟩, hv⟩
+  · obtain ⟨h1, h2⟩ := hh hd h
+    exact ⟨h1, (isSome_iff_keys _ _).mpr (he.1 _ ((isSome_iff_keys _ _).mp h2))⟩
+  · exact ⟨by rw [hl]; exact (hh h0 hm0).1, (isSome_iff_keys _ _).mpr hv⟩
+
+theorem history_from (K : TS.Consts) (ts : TS.TypeSystem) (lenient : Bool) (ops : List COp) (s : CState)
+    (hg : Good s) (hh : HandlesOk lenient s) :
+    Good (ops.foldl (cstep K ts) s) ∧ HandlesOk lenient (ops.foldl (cstep K ts) s) := by
+  induction ops generalizing s with
+  | nil => exact ⟨hg, hh⟩
+  | cons op ops ih =>
+    obtain ⟨g1, e1⟩ := step_good K ts s op hg
+    exact ih _ g1 (handlesOk_ext hh e1)
+
+theorem handles_history_aux (K : TS.Consts) (ts : TS.TypeSystem) (lenient : Bool) (ops : List COp) :
+    HandlesOk lenient (ops.foldl (cstep K ts) (init lenient)) ∧ ViewsOk (ops.foldl (cstep K ts) (init lenient)) := by
+  obtain ⟨g, h⟩ := history_from K ts lenient ops _ (good_init lenient) (handlesOk_init lenient)
+  exact ⟨h, g.2.2⟩
+
+/-! ### C09 -/
+
+theorem ids_history_aux (K : TS.Consts) (ts : TS.TypeSystem) (lenient : Bool) (ops : List COp) :
+    Bounded (ops.foldl (cstep K ts) (init lenient)) ∧ UniqueIds (ops.foldl (cstep K ts) (init lenient)) := by
+  obtain ⟨g, _⟩ := history_from K ts lenient ops _ (good_init lenient) (handlesOk_init lenient)
+  have := (good_iff' _).mp g
+  exact ⟨this.1, this.2.1⟩
+
+theorem ids_step_aux (K : TS.Consts) (ts : TS.TypeSystem) (s : CState) (op : COp)
+    (hb : Bounded s) (hu : UniqueIds s) (hv : ViewsOk s) :
+    Bounded (cstep K ts s op) ∧ UniqueIds (cstep K ts s op) ∧ ViewsOk (cstep K ts s op) :=
+  (good_iff' _).mp (step_good K ts s op ((good_iff' s).mpr ⟨hb, hu, hv⟩)).1
+
+theorem generated_id_fresh_aux (ts : TS.TypeSystem) (cas : Nat) (s : CState) (h : Handle) (addr : Nat) (keep : Bool)
+    (c' : Cas) (hp' : Heap) (o : Obj) (hb : Bounded s) (ho : s.heap[addr]? = some o)
+    (hgen : keep = false ∨ o.xid = none)
+    (hadd : add ts cas s.cas s.heap h addr keep = .ok (c', hp')) :
+    ∃ o', hp'[addr]? = some o' ∧ o'.xid = some s.cas.nextXid ∧
+      s.cas.nextXid ∉ sofaIds s.cas ∧ s.cas.nextXid ∉ fsIds s.heap ∧ c'.nextXid = s.cas.nextXid + 1 := by
+  obtain ⟨o1, v, x, c1, e, ho1, _, hv, hx, he, rfl, rfl⟩ := add_cases hadd
+  rw [ho] at ho1
+  cases ho1
+  have hlt : addr < s.heap.length := (List.getElem?_eq_some_iff.mp ho).1
+  obtain ⟨b1, _, b3⟩ := hb
+  rcases hx with ⟨hk, hxo, _⟩ | ⟨_, rfl, rfl⟩
+  · rcases hgen with hgen | hgen
+    · rw [hk] at hgen; cases hgen
+    · rw [hxo] at hgen; cases hgen
+  · refine ⟨_, List.getElem?_set_self hlt, rfl, ?_, ?_, rfl⟩
+    · intro hm; have := b1 _ hm; omega
+    · intro hm; have := b3 _ hm; omega
+
+theorem kept_id_persists_aux (ts : TS.TypeSystem) (cas : Nat) (c c' : Cas) (hp hp' : Heap) (h : Handle) (addr : Nat)
+    (o : Obj) (x : Int) (ho : hp[addr]? = some o) (hx : o.xid = some x)
+    (hadd : add ts cas c hp h addr true = .ok (c', hp')) :
+    ∃ o', hp'[addr]? = some o' ∧ o'.xid = some x ∧ c'.nextXid = c.nextXid := by
+  obtain ⟨o1, v, x1, c1, e, ho1, _, hv, hx1, he, rfl, rfl⟩ := add_cases hadd
+  rw [ho] at ho1
+  cases ho1
+  have hlt : addr < hp.length := (List.getElem?_eq_some_iff.mp ho).1
+  rcases hx1 with ⟨_, hxo, rfl⟩ | ⟨hk, _, _⟩
+  · rw [hx] at hxo
+    cases hxo
+    exact ⟨_, List.getElem?_set_self hlt, rfl, rfl⟩
+  · rcases hk with hk | hk
+    · cases hk
+    · rw [hx] at hk; cases hk
+
+theorem createView_fresh_aux (s : CState) (h : Handle) (name : String) (c' : Cas) (h' : Handle)
+    (hb : Bounded s) (hc : createView s.cas h name = .ok (c', h')) :
+    ∃ v, getViewRec c' name = some v ∧ v.sofa.xid = s.cas.nextXid ∧ v.sofa.sofaNum = s.cas.nextSofaNum ∧
+      s.cas.nextXid ∉ sofaIds s.cas ++ fsIds s.heap ∧ s.cas.nextSofaNum ∉ sofaNums s.cas ∧ v.idx = [] := by
+  obtain ⟨hnone, rfl, rfl⟩ := createView_ok hc
+  obtain ⟨b1, b2, b3⟩ := hb
+  refine ⟨newView s.cas name, ?_, rfl, rfl, ?_, ?_, rfl⟩
+  · have := alistGet?_set_same s.cas.views name (newView s.cas name)
+    rw [alistSet_of_none _ _ _ hnone] at this
+    exact this
+  · intro hm
+    rcases List.mem_append.mp hm with hm | hm
+    · have := b1 _ hm; omega
+    · have := b3 _ hm; omega
+  · intro hm; have := b2 _ hm; omega
+
+end Cassis.Cas
+
+namespace Cassis.Cas
+
+/-! ### Kernel evaluation of concrete histories
+
+`TS.hasDot` is `String.contains`, which the kernel does not unfold, so the type check of a non-lenient
+`add` blocks `decide`.  When the type of the added structure is known to be registered the check passes,
+and the call equals the one through a lenient copy of the handle, which evaluates. -/
+
+theorem hasDot_eq (n : String) : TS.hasDot n = decide ('.' ∈ n.toList) := String.contains_char_eq
+
+theorem containsType_of_hasExact {ts : TS.TypeSystem} {n : String} (hd : TS.hasDot n = true)
+    (he : TS.hasExact ts n = true) : TS.containsType ts n = true := by
+  unfold TS.containsType
+  simp only [hd, he, Bool.true_or, if_true]
+
+theorem add_lenient_eq {ts : TS.TypeSystem} {cas : Nat} {c : Cas} {hp : Heap} {h : Handle} {addr : Nat}
+    {keep : Bool} (hc : ∀ o : Obj, hp[addr]? = some o → TS.containsType ts o.ty = true) :
+    add ts cas c hp h addr keep = add ts cas c hp { h with lenient := true } addr keep := by
+  unfold add
+  cases ho : hp[addr]? with
+  | none => rfl
+  | some o =>
+    have := hc o ho
+    simp only [bind, Except.bind, pure, Except.pure, this, Bool.not_true, Bool.and_false, cur]
+
+theorem getType_name_of_hasDot {ts : TS.TypeSystem} {n : String} {t : TS.TypeRec} (hd : TS.hasDot n = true)
+    (h : TS.getType ts n = .ok t) : t.name = n := by
+  unfold TS.getType at h
+  split at h
+  · rename_i t' hf; cases h; exact TS.find?_name hf
+  · simp only [hd, if_true] at h; cases h
+
+theorem docAnn_lenient_eq {ts : TS.TypeSystem} {ti cas : Nat} {c : Cas} {hp : Heap} {h : Handle}
+    (hd : TS.hasDot TS.DOCUMENT_ANNOTATION = true)
+    (hc : TS.containsType ts TS.DOCUMENT_ANNOTATION = true) :
+    getDocumentAnnotation ts ti cas c hp h = getDocumentAnnotation ts ti cas c hp { h with lenient := true } := by
+  unfold getDocumentAnnotation
+  have hs : select ts c { h with lenient := true } TS.DOCUMENT_ANNOTATION =
+      select ts c h TS.DOCUMENT_ANNOTATION := rfl
+  rw [hs]
+  simp only [bind, Except.bind, pure, Except.pure]
+  cases select ts c h TS.DOCUMENT_ANNOTATION with
+  | error e => rfl
+  | ok sel =>
+    cases sel with
+    | cons e rest => rfl
+    | nil =>
+      simp only
+      cases ht : TS.getType ts TS.DOCUMENT_ANNOTATION with
+      | error e => rfl
+      | ok t =>
+        simp only
+        cases hcon : construct t ti none [] with
+        | error e => rfl
+        | ok o =>
+          simp only
+          rw [add_lenient_eq]
+          intro o' ho'
+          rw [List.getElem?_concat_length] at ho'
+          cases ho'
+          rw [(construct_ok hcon).1, getType_name_of_hasDot hd ht]
+          exact hc
+
+/-- `cstep` with the leniency of the handle overridden in `add` -/
+theorem cstep_add_strict (K : TS.Consts) (ts : TS.TypeSystem) (s : CState) (h addr : Nat) (keep : Bool)
+    (L : List String) (hL : ∀ n ∈ L, TS.containsType ts n = true)
+    (ho : (s.heap[addr]?).all (fun o => L.contains o.ty) = true) :
+    cstep K ts s (.add h addr keep) =
+      match s.handles[h]? with
+      | none => s
+      | some hd => match add ts 0 s.cas s.heap { hd with lenient := true } addr keep with
+        | .ok (c', hp') => { s with cas := c', heap := hp' }
+        | .error _ => s := by
+  simp only [cstep]
+  cases s.handles[h]? with
+  | none => rfl
+  | some hd =>
+    simp only
+    have hc : ∀ o : Obj, s.heap[addr]? = some o → TS.containsType ts o.ty = true := by
+      intro o ho'
+      rw [ho'] at ho
+      simp only [Option.all_some, List.contains_iff_mem] at ho
+      exact hL _ ho
+    rw [add_lenient_eq hc]
+    try rfl
+
+theorem cstep_docAnn_strict (K : TS.Consts) (ts : TS.TypeSystem) (s : CState) (h : Nat)
+    (hd : TS.hasDot TS.DOCUMENT_ANNOTATION = true)
+    (hc : TS.containsType ts TS.DOCUMENT_ANNOTATION = true) :
+    cstep K ts s (.docAnn h) =
+      match s.handles[h]? with
+      | none => s
+      | some hd => match getDocumentAnnotation ts 0 0 s.cas s.heap { hd with lenient := true } with
+        | .ok (c', hp', _) => { s with cas := c', heap := hp' }
+        | .error _ => s := by
+  simp only [cstep]
+  cases s.handles[h]? with
+  | none => rfl
+  | some hd' =>
+    simp only
+    rw [docAnn_lenient_eq hd hc]
+    try rfl
+
+theorem hasDot_annotation : TS.hasDot TS.ANNOTATION = true := by rw [hasDot_eq]; decide
+theorem hasDot_docAnn : TS.hasDot TS.DOCUMENT_ANNOTATION = true := by rw [hasDot_eq]; decide
+
 end Cassis.Cas
